@@ -329,8 +329,8 @@ fn tier_cfg(prop: &str, tier: &str) -> TierCfg {
     }
 }
 
-fn level_for(_prop: &str) -> &'static str {
-    "exploration"
+fn level_for(prop: &str) -> &'static str {
+    if prop == "C25" { "fault_enumeration" } else { "exploration" }
 }
 
 fn rule_for(prop: &str) -> String {
@@ -347,6 +347,8 @@ fn rule_for(prop: &str) -> String {
         "C21" => "oracle: every adapter call names a defined type/property/edge/subtype, passes exactly the declared parameters (explicit, default or null) and only instances of the named type; ",
         "C22" => "workload biased to folds with count filters; oracle: rows equal the full-materialisation model and are unchanged by observation transforms; ",
         "C23" => "oracle: metamorphic relation between the original and the transformed query, each under an independently drawn schedule; ",
+        "C25" => "each case = one generated schema; for it the single-fault space {property, neighbors, coercion} x every (type, field / coercion target) site the checker reaches x {swap adjacent contexts, rotate, reverse, non-null property / one neighbor / true coercion for a context without an active vertex} x position {first, middle, last} is enumerated completely, one fault per run of the real check_adapter_invariants, the adapter pulling its input in chunks of a tape-chosen size; oracle: no fault => returns; fault fired => panics; every documented site is reached; evaluations counts schemas, coverage.single_fault_runs counts checker runs; ",
+        "C20" => "each case = one generated schema; (a) the real check_adapter_invariants on the real SchemaAdapter, and the engine run over SchemaAdapter behind an order-preserving wrapper that reads ahead in tape-chosen chunks and injects contexts without an active vertex (answers for them must be null / no neighbors / false, in place); (b) generated introspection queries over the meta-schema, engine-over-SchemaAdapter rows equal the reference model evaluated on the harness's own view of its schema AST (multisets, fold lists canonicalised: hash order is not part of the claim); ",
         "C15" => "oracle: rows through AdapterTap equal direct rows; trace survives a RON round trip; replay without the data source reproduces the rows; ",
         _ => "",
     };
@@ -649,6 +651,15 @@ pub fn main(args: &[String]) -> i32 {
             check(&prop, &tier, runs)
         }
         Some("replay") => replay(args.get(1).map(|s| s.as_str()).unwrap_or("")),
+        Some("hashsim") => {
+            let tier = args.get(1).cloned().unwrap_or_else(|| "quick".into());
+            crate::hashsim::check(&tier, seed_from_env())
+        }
+        Some("hashsim-emit") => {
+            let g = |i: usize| args.get(i).and_then(|s| s.parse::<u64>().ok()).unwrap_or(0);
+            crate::hashsim::emit(g(1), g(2), g(3))
+        }
+        Some("hashsim-replay") => crate::hashsim::replay(args.get(1).map(|s| s.as_str()).unwrap_or("")),
         Some("show") => {
             let prop = args.get(1).cloned().unwrap_or_default();
             let run = args.get(2).and_then(|s| s.parse().ok()).unwrap_or(0);
